@@ -67,6 +67,28 @@ def readIsolated (registrars : List Row) (reader : String) : Bool :=
   | r0 :: _ => (commands registrars).all fun c =>
       c == reader || seenBy (registrars.filter fun s => s.path != c) r0.var r0.typ == seenBy registrars r0.var r0.typ
 
+/-! ### two options of ONE command writing the same variable (aliases)
+
+  `q` is visible to the command of `r` when it is a flag of that command or a persistent flag of
+  an ancestor.  If two different flags visible to one command are bound to one variable, then the
+  documented default of one of them, given AFTER a non-default value of the other, overrides it:
+  leaving the option out is then not the same as passing its documented default.  (The starred
+  theorems exclude this region by their hypothesis `hpre`.) -/
+
+def visibleTo (path : String) (q : Row) : Bool :=
+  q.path == path || (q.persistent && q.path != path && (path ++ " ").startsWith (q.path ++ " "))
+
+/-- the flags of ANOTHER NAME that the command of `r` can be given and that write the variable of `r`
+    (an inherited flag of the same name is hidden by `r`, not an alias of it: cf. `hides`) -/
+def aliasesOf (t : List Row) (r : Row) : List Row :=
+  t.filter fun q => q.var == r.var && visibleTo r.path q && q.flag != r.flag
+
+/-- no command sees two flags on one variable — except the (command, flag) pairs of `except` -/
+def noAliasInCommandExcept (except : List (String × String)) (t : List Row) : Bool :=
+  t.all fun r => except.contains (r.path, r.flag) || (aliasesOf t r).isEmpty
+
+def noAliasInCommand (t : List Row) : Bool := noAliasInCommandExcept [] t
+
 /-- the whole property on a table -/
 def tableOK (t : List Row) : Bool := defaultsUsed t && sharedAgree t && isolated t
 
